@@ -152,7 +152,7 @@ theorem pairC_piGrad (am ph d : PRBM ℝ n h a) (phase : Bool) (v vp : Fin n →
                   else csigmoid (piArgRe am v vp k) (piArgIm ph v vp k))
           * (((∑ j, (if phase then v j - vp j else v j + vp j) * d.U k j) / 2 + (if phase then 0 else d.d k) : ℝ) : ℂ) := by
   apply Complex.ext
-  · simp only [pairC, piGrad, PRBM.pair, zero_mul, Finset.sum_const_zero, zero_add, add_zero, two_eq,
+  · simp only [pairC, piGrad, C.csigmoidH_eq, PRBM.pair, zero_mul, Finset.sum_const_zero, zero_add, add_zero, two_eq,
       Complex.re_sum, Complex.mul_re, Complex.ofReal_re, Complex.ofReal_im, mul_zero, sub_zero, toC_re]
     cases phase
     · simp only [Bool.false_eq_true, if_false]
@@ -165,7 +165,7 @@ theorem pairC_piGrad (am ph d : PRBM ℝ n h a) (phase : Bool) (v vp : Fin n →
       refine Finset.sum_congr rfl (fun k _ => ?_)
       rw [Finset.sum_div, Finset.mul_sum]
       refine Finset.sum_congr rfl (fun j _ => by ring)
-  · simp only [pairC, piGrad, PRBM.pair, zero_mul, Finset.sum_const_zero, zero_add, add_zero, two_eq,
+  · simp only [pairC, piGrad, C.csigmoidH_eq, PRBM.pair, zero_mul, Finset.sum_const_zero, zero_add, add_zero, two_eq,
       Complex.im_sum, Complex.mul_im, Complex.ofReal_re, Complex.ofReal_im, mul_zero, add_zero, toC_im]
     cases phase
     · simp only [Bool.false_eq_true, if_false]
